@@ -19,6 +19,10 @@
 #include <vector>
 #include <functional>
 #include <limits>
+#include <atomic>
+#include <chrono>
+#include <fcntl.h>
+#include <unistd.h>
 
 namespace vf
 {
@@ -207,6 +211,25 @@ namespace vf
         std::string done() const { return s + "}"; }
     };
 
+    // ---- heartbeat ---------------------------------------------------------------------------------------
+    // Long-running cases (a planner that is slow per evaluation) must not look like hangs: whoever is evaluated regularly
+    // (the termination condition) calls heartbeat(), which appends a tiny record at most once per second through its own
+    // O_APPEND descriptor (plain write(2): no stdio locks, safe from any thread). The driver's hang detection looks at the
+    // modification time of the output file, so a hang is "no case finished AND no heartbeat for case_timeout seconds".
+    inline int g_hbFd = -1;
+    inline std::atomic<long long> g_hbLast{0};
+    inline void heartbeat()
+    {
+        if (g_hbFd < 0) return;
+        long long now = std::chrono::duration_cast<std::chrono::milliseconds>(std::chrono::steady_clock::now().time_since_epoch()).count();
+        long long last = g_hbLast.load(std::memory_order_relaxed);
+        if (now - last < 1000) return;
+        if (!g_hbLast.compare_exchange_strong(last, now, std::memory_order_relaxed)) return;
+        static const char rec[] = "{\"t\":\"hb\"}\n";
+        ssize_t r = ::write(g_hbFd, rec, sizeof rec - 1);
+        (void)r;
+    }
+
     // ---- event sink --------------------------------------------------------------------------------------
     class Sink
     {
@@ -219,6 +242,7 @@ namespace vf
                 perror("open out");
                 exit(2);
             }
+            if (!a.out.empty()) g_hbFd = ::open(a.out.c_str(), O_WRONLY | O_APPEND);
         }
         void begin(long c)
         {
